@@ -11,7 +11,7 @@ LEVEL_TEXT = ("Theorems about functions regenerated from support.py / smooth.py 
               "when the dof is an ancestor of the body, else 0; for hinge/slide dofs the column is (axis x (x - anchor), axis) / (axis, 0) (the subtree-com offsets cancel); for a single hinge in any "
               "unit frame the derivative of the kernel's own point position w.r.t. the joint angle IS that column (HasDerivAt). On the real code: jac() vs mujoco.mj_jac on random points/bodies, "
               "J*qvel vs efc_vel for every constraint row, finite-difference of point positions, and dense vs sparse Jacobian simulations.")
-LEVEL_NOTE = "C22_partial: chains of joints and ball/free rotational dofs (velocity-map statement), tendon/actuator Jacobians and dense=sparse are sampled only. Trusted: Lean kernel + Mathlib, translator."
+LEVEL_NOTE = "C22_partial: chains of joints and ball/free rotational dofs (velocity-map statement), tendon/actuator Jacobians (vs MuJoCo and vs finite differences of the lengths) and dense=sparse are sampled only. Trusted: Lean kernel + Mathlib, translator."
 ASSUMPTIONS = ["tolerance 1e-4 on Jacobians, 2e-3 on J*qvel vs efc_vel, finite-difference step 1e-4 in float64 MuJoCo positions"]
 
 
@@ -25,10 +25,30 @@ def _run(ctx, ncases, rec):
 
   def scenario():
     for c in range(ncases):
-      wb, sp = models.random_tree(rng, nbody=int(rng.integers(2, 7)), max_joints_per_body=2, geom_types=["sphere", "capsule", "box"], sites=False, spread=0.35)
+      wb, sp = models.random_tree(rng, nbody=int(rng.integers(2, 7)), max_joints_per_body=2, geom_types=["sphere", "capsule", "box"], sites=True, spread=0.35)
       extra = ""
       if len(sp.bodies) >= 2:
         extra = f'<equality><connect body1="{sp.bodies[0]}" body2="{sp.bodies[-1]}" anchor="0.05 0 0"/></equality>'
+      # tendons (spatial through sites of possibly DIFFERENT kinematic trees, fixed over scalar joints) and actuators on them:
+      # their Jacobians must be the derivatives of their lengths
+      hj22 = [j for j, t in sp.joint_types.items() if t in ("hinge", "slide")]
+      ten, act = "", ""
+      if len(sp.sites) >= 2:
+        for k in range(int(rng.integers(1, 3))):
+          a, b = rng.choice(len(sp.sites), size=2, replace=False)
+          ten += f'<spatial name="sp{k}"><site site="{sp.sites[a]}"/><site site="{sp.sites[b]}"/></spatial>'
+          act += f'<motor tendon="sp{k}"/>'
+      if len(hj22) >= 2:
+        ten += f'<fixed name="fx"><joint joint="{hj22[0]}" coef="1.3"/><joint joint="{hj22[1]}" coef="-0.7"/></fixed>'
+        act += '<position tendon="fx" kp="2"/>'
+      if hj22:
+        act += f'<motor joint="{hj22[0]}" gear="1.7"/>'
+      if len(sp.sites) >= 2:
+        act += f'<general site="{sp.sites[0]}" refsite="{sp.sites[-1]}" gear="1 0 0 0 0.5 0"/>'
+      if ten:
+        extra += f"<tendon>{ten}</tendon>"
+      if act:
+        extra += f"<actuator>{act}</actuator>"
       jac_mode = "sparse" if rng.random() < 0.5 else "dense"
       xml = models.wrap(wb, option=f'jacobian="{jac_mode}"', extra=extra).replace('type="hinge"', 'type="hinge" limited="true" range="-0.3 0.3" frictionloss="0.1"')
       try:
@@ -59,6 +79,39 @@ def _run(ctx, ncases, rec):
         if not (np.allclose(jacp.numpy()[0], jp, atol=2e-4) and np.allclose(jacr.numpy()[0], jr, atol=2e-4)):
           acc.find(f"jac() differs from mj_jac for body {b} (max |d| {max(np.abs(jacp.numpy()[0] - jp).max(), np.abs(jacr.numpy()[0] - jr).max()):.3g})", "support.jac", "vs-mj_jac", xml=xml,
                    qpos=mjd.qpos.tolist(), body=b, point=pt.tolist())
+      # (a') tendon and actuator lengths and velocities (velocity = Jacobian * qvel, for a random qvel) vs MuJoCo, and the
+      # velocities against a central finite difference of mujoco_warp's OWN lengths along qvel (J is the derivative of L)
+      if mjm.ntendon or mjm.nu:
+        h = 1e-3
+        Lp = []
+        for sgn in (+1, -1):
+          q2 = mjd.qpos.copy()
+          mujoco.mj_integratePos(mjm, q2, mjd.qvel, sgn * h)
+          mdx = mujoco.MjData(mjm); mdx.qpos[:] = q2
+          mujoco.mj_kinematics(mjm, mdx); mujoco.mj_comPos(mjm, mdx)
+          dx = mjw.put_data(mjm, mdx, nworld=1, naconmax=200, njmax=400)
+          dx.qpos.assign(q2[None].astype(np.float32))
+          mjw.kinematics(m, dx); mjw.com_pos(m, dx); mjw.tendon(m, dx); mjw.transmission(m, dx)
+          Lp.append((dx.ten_length.numpy()[0].astype(np.float64), dx.actuator_length.numpy()[0].astype(np.float64)))
+        # site transmissions with a reference site measure rotation by a quaternion difference in a moving frame: their moment is
+        # MuJoCo's definition, not the exact derivative of that length, so the finite-difference test covers joint/tendon transmissions
+        fdmask = {"tendon": np.ones(mjm.ntendon, dtype=bool),
+                  "actuator": np.isin(mjm.actuator_trntype, [int(mujoco.mjtTrn.mjTRN_JOINT), int(mujoco.mjtTrn.mjTRN_TENDON)])}
+        for nm, got_l, ref_l, got_v, ref_v, fd in (("tendon", d.ten_length.numpy()[0], mjd.ten_length, d.ten_velocity.numpy()[0], mjd.ten_velocity, (Lp[0][0] - Lp[1][0]) / (2 * h)),
+                                                  ("actuator", d.actuator_length.numpy()[0], mjd.actuator_length, d.actuator_velocity.numpy()[0], mjd.actuator_velocity, (Lp[0][1] - Lp[1][1]) / (2 * h))):
+          if not len(ref_l):
+            continue
+          acc.evals += 1
+          sc = 1 + np.abs(ref_v).max()
+          if not np.allclose(got_l, ref_l, rtol=1e-4, atol=1e-4):
+            acc.find(f"{nm} length differs from mj_forward (max |d| {np.abs(got_l - ref_l).max():.3g})", "smooth.tendon/transmission", f"{nm}-length", xml=xml, qpos=mjd.qpos.tolist())
+          elif not np.allclose(got_v, ref_v, rtol=2e-3, atol=2e-3 * sc):
+            acc.find(f"{nm} velocity (Jacobian * qvel) differs from mj_forward (max |d| {np.abs(got_v - ref_v).max():.3g})", "smooth.tendon/transmission", f"{nm}-jacobian", xml=xml,
+                     qpos=mjd.qpos.tolist(), qvel=mjd.qvel.tolist())
+          elif not np.allclose(got_v[fdmask[nm]], fd[fdmask[nm]], rtol=2e-2, atol=2e-2 * sc):
+            acc.find(f"{nm} velocity (Jacobian * qvel) is not the derivative of its own length along qvel (max |d| {np.abs(got_v - fd).max():.3g})", "smooth.tendon/transmission",
+                     f"{nm}-jacobian-fd", xml=xml, qpos=mjd.qpos.tolist(), qvel=mjd.qvel.tolist())
+          acc.hit(nm)
       # (b) J*qvel = efc_vel for every row
       nefc = int(d.nefc.numpy()[0])
       if nefc and (d.overflow.numpy() == 0).all():
@@ -97,7 +150,8 @@ def _run(ctx, ncases, rec):
   return acc, kc
 
 
-RULE = ("random trees over a floor with limits, friction loss and a connect equality, dense or sparse; (a) jac() at random points of random bodies vs mujoco.mj_jac, (b) J*qvel vs efc_vel for all rows, "
+RULE = ("random trees over a floor with limits, friction loss, a connect equality, spatial tendons between sites of arbitrary trees, a fixed tendon and actuators on joints/tendons/sites, dense or sparse; "
+        "(a') tendon/actuator lengths and velocities vs mj_forward and velocities vs central differences of their own lengths; (a) jac() at random points of random bodies vs mujoco.mj_jac, (b) J*qvel vs efc_vel for all rows, "
         "(c) the same state with the other Jacobian representation gives the same qacc; distinct = (case, representation)")
 
 
